@@ -2,6 +2,7 @@
 Invocation-level world shared by C07, C08, C11 and C12: where things are in the sandbox, how an option set
 becomes an ``nnvg`` command line, and the pristine-world reference run.
 """
+import hashlib
 import os
 import shutil
 import typing
@@ -30,6 +31,16 @@ class World:
             return path
         if how == "abs_slash":
             return path + "/"
+        if how == "child_dotdot":
+            # "<dir>/<child>/..": the same directory, but its name is not the last component of the spelling
+            kids = sorted(k for k in os.listdir(path) if os.path.isdir(os.path.join(path, k))) if os.path.isdir(path) else []
+            return os.path.join(path, kids[0], "..") if kids else path
+        if how == "symlink_alias":
+            # a symbolic link with ANOTHER name that points to the directory
+            link = os.path.join(self.sandbox, "alias-" + hashlib.sha256(path.encode("utf-8")).hexdigest()[:8])
+            if not os.path.islink(link):
+                os.symlink(path, link)
+            return link
         rel = os.path.relpath(path, self.cwd)
         if how == "rel":
             return rel
@@ -118,7 +129,7 @@ class World:
             a += ["--configuration"] + list(opts["configs"]) + ["--verbose"]
         a += opts.get("extra_argv", [])
         if opts.get("root") is not None:
-            a.append(self.spell(os.path.join(self.in_dir, opts["root"]), opts.get("in_spelling", "abs")))
+            a.append(self.spell(os.path.join(self.in_dir, opts["root"]), opts.get("root_spelling") or opts.get("in_spelling", "abs")))
         return a
 
     def invocation(self, opts: dict, **plan: typing.Any) -> dict:
